@@ -436,8 +436,6 @@ Proof.
   constructor; [exact H1|]. eapply Forall_impl; [|exact Hall]. cbn. intros; lia.
 Qed.
 
-Fixpoint nodupb (l : list rank) : bool :=
-  match l with [] => true | x :: l' => negb (existsb (String.eqb x) l') && nodupb l' end.
 Lemma nodupb_sound l : nodupb l = true -> NoDup l.
 Proof.
   induction l as [|x l IH]; intros H; [constructor|]. cbn [nodupb] in H. apply andb_true_iff in H as [H1 H2].
@@ -445,17 +443,28 @@ Proof.
   assert (existsb (String.eqb x) l = true) by (apply existsb_exists; exists x; split; [exact Hin|apply String.eqb_refl]). congruence.
 Qed.
 
-Definition term_okb (r : rank) (tm : term) : bool :=
-  forallb (fun t => nodupb (rem t) && (negb (holds r t) || participates r t)) tm.
+Lemma rmem_in r rs : In r rs -> rmem r rs = true.
+Proof. intros H. apply existsb_exists. exists r. split; [exact H|apply String.eqb_refl]. Qed.
+
+Lemma holds_in r t : holds r t = true -> In r (rem t).
+Proof.
+  unfold holds. destruct (index_of r (rem t)) as [d|] eqn:E; [|discriminate]. intros _.
+  eapply nth_error_In. apply index_of_nth. exact E.
+Qed.
+
+Lemma rems_okb_sound r rs : rems_okb r rs = true -> NoDup rs /\ (In r rs -> heads r rs = true).
+Proof.
+  intros H. unfold rems_okb in H. apply andb_true_iff in H as [H1 H2]. split; [apply nodupb_sound; exact H1|].
+  intros Hin. rewrite (rmem_in r rs Hin) in H2. exact H2.
+Qed.
+
 Lemma term_okb_sound r tm : term_okb r tm = true -> term_ok r tm.
 Proof.
   intros H t Ht. unfold term_okb in H. rewrite forallb_forall in H. specialize (H t Ht).
-  apply andb_true_iff in H as [H1 H2]. split; [apply nodupb_sound; exact H1|].
-  intros Hh. rewrite Hh in H2. exact H2.
+  destruct (rems_okb_sound r (rem t) H) as [H1 H2]. split; [exact H1|].
+  intros Hh. rewrite participates_heads. apply H2. apply holds_in. exact Hh.
 Qed.
 
-Definition leader_okb (r : rank) (k : nat) (tm : term) : bool :=
-  match nth_error tm k with Some ld => participates r ld && sortedb (keys (children (cur ld))) | None => false end.
 Lemma leader_okb_sound r k tm : leader_okb r k tm = true -> leader_ok r k tm.
 Proof.
   unfold leader_okb, leader_ok. destruct (nth_error tm k) as [ld|]; [|discriminate]. intros H.
@@ -507,3 +516,146 @@ Proof.
   repeat split; vm_compute; reflexivity.
 Qed.
 End Examples.
+
+(* ---------- 4. the split at a dynamic position: outer levels, then the split, then the inner levels ---------- *)
+Lemma run_k_sum : forall Lo k tms p,
+  sum_at p (run_k Lo k tms) = if along Lo p tms then sum_at p (k (reach Lo p tms)) else 0.
+Proof.
+  induction Lo as [|r Lo IH]; intros k tms p; cbn [run_k along reach]; [reflexivity|].
+  rewrite (sum_at_flat_map p r (fun c => run_k Lo k (map (step_term r c) tms))) by apply NoDup_nodup.
+  destruct (in_dec Z.eq_dec (p r) (visited r tms)); cbn [andb]; [apply IH|reflexivity].
+Qed.
+
+(* run_k generalises Nest.run *)
+Lemma run_k_run L tms : run_k L (fun s => [([], fold_right (fun tm acc => term_leaf tm + acc) 0 s)]) tms = run L tms.
+Proof.
+  revert tms; induction L as [|r L IH]; intros tms; cbn [run_k run]; [reflexivity|].
+  apply flat_map_ext. intros c. rewrite IH. reflexivity.
+Qed.
+
+Lemma wf_outer_reach Lo Q tms p : wf_outer Lo Q tms -> Q (reach Lo p tms).
+Proof.
+  revert tms; induction Lo as [|r Lo IH]; intros tms H; cbn [reach]; [exact H|].
+  destruct H as [_ H]. apply IH. apply H.
+Qed.
+
+Lemma wf_outer_impl Lo (Q Q' : list term -> Prop) tms : (forall s, Q s -> Q' s) -> wf_outer Lo Q tms -> wf_outer Lo Q' tms.
+Proof.
+  intros HQ. revert tms; induction Lo as [|r Lo IH]; intros tms H; cbn [wf_outer] in *; [apply HQ; exact H|].
+  destruct H as [H1 H2]. split; [exact H1|]. intros c. apply IH. apply H2.
+Qed.
+
+Lemma wf_outer_wf L tms : wf L tms <-> wf_outer L (fun s => forall tm, In tm s -> forall t, In t tm -> rem t = []) tms.
+Proof.
+  revert tms; induction L as [|r L IH]; intros tms; cbn [wf wf_outer]; [tauto|].
+  split; intros [H1 H2]; (split; [exact H1|]); intros c; apply IH; apply H2.
+Qed.
+
+Lemma body_den_reach Lo p q tms : (forall x, In x Lo -> q x = p x) -> body_den (reach Lo p tms) q = body_den tms q.
+Proof.
+  revert tms; induction Lo as [|r Lo IH]; intros tms H; cbn [reach]; [reflexivity|].
+  rewrite IH by (intros x Hx; apply H; right; exact Hx).
+  apply body_den_step. apply H. left. reflexivity.
+Qed.
+
+Lemma not_along_zero Lo Q p q tms : wf_outer Lo Q tms -> (forall x, In x Lo -> q x = p x) ->
+  along Lo p tms = false -> body_den tms q = 0.
+Proof.
+  revert tms; induction Lo as [|r Lo IH]; intros tms Hwf H Ha; cbn [along] in Ha; [discriminate|].
+  destruct Hwf as [Hpart Hwf]. assert (Hr : q r = p r) by (apply H; left; reflexivity).
+  destruct (in_dec Z.eq_dec (p r) (visited r tms)) as [Hin|Hnin]; cbn [andb] in Ha.
+  - rewrite <- (body_den_step r (p r) tms q Hr). apply (IH _ (Hwf (p r))); [|exact Ha].
+    intros x Hx. apply H. right. exact Hx.
+  - apply (body_den_all_dead r (p r)); [exact Hr|].
+    destruct (existsb (term_alive r (p r)) tms) eqn:E; [|reflexivity].
+    exfalso. apply Hnin. apply visited_spec; assumption.
+Qed.
+
+(* generic: if the continuation is sound at every reachable state, the nest around it is *)
+Theorem run_k_sound : forall Lo k (Q : list term -> Prop) (G : list term -> point -> Z) tms,
+  wf_outer Lo Q tms -> (forall s p, Q s -> sum_at p (k s) = G s p) ->
+  forall p, sum_at p (run_k Lo k tms) = if along Lo p tms then G (reach Lo p tms) p else 0.
+Proof.
+  intros Lo k Q G tms Hwf Hk p. rewrite run_k_sum. destruct (along Lo p tms); [|reflexivity].
+  apply Hk. apply wf_outer_reach. exact Hwf.
+Qed.
+
+Lemma reach_single Lo p tm : reach Lo p [tm] = [reach_term Lo p tm].
+Proof. revert tm; induction Lo as [|r Lo IH]; intros tm; cbn [reach reach_term map]; [reflexivity|apply IH]. Qed.
+
+Lemma reach_term_ext Lo p q tm : (forall x, In x Lo -> p x = q x) -> reach_term Lo p tm = reach_term Lo q tm.
+Proof.
+  revert tm; induction Lo as [|r Lo IH]; intros tm H; cbn [reach_term]; [reflexivity|].
+  rewrite (H r (or_introl eq_refl)). apply IH. intros x Hx. apply H. right. exact Hx.
+Qed.
+
+(* what must hold of every state at which the split is applied *)
+Definition occ_state_ok (r r1 r0 : rank) (n k : nat) (Li : list rank) (s : list term) : Prop :=
+  (forall tm, In tm s -> term_ok r tm /\ leader_ok r k tm) /\ wf Li (map (occ_split r r1 r0 n k) s).
+
+Lemma collapse_outer r r0 p Lo : ~ In r Lo -> forall x, In x Lo -> collapse r r0 p x = p x.
+Proof.
+  intros Hn x Hx. unfold collapse, upd. destruct (String.eqb_spec x r) as [->|_]; [contradiction|reflexivity].
+Qed.
+
+(* occupancy partitioning of rank r AFTER the outer levels Lo: the boundaries are those of the leader's fiber in the state
+   reached at the outer coordinates of p *)
+Theorem occ_dyn_sound : forall Lo r r1 r0 n k Li tm,
+  ~ In r Lo -> wf_outer Lo (occ_state_ok r r1 r0 n k Li) [tm] ->
+  forall p, sum_at p (run_then_split Lo (occ_split r r1 r0 n k) Li [tm]) =
+            if occ_consistent (leader_bounds n k (reach_term Lo p tm)) r1 r0 p then term_den tm (collapse r r0 p) else 0.
+Proof.
+  intros Lo r r1 r0 n k Li tm Hr Hwf p. unfold run_then_split. rewrite run_k_sum.
+  pose proof (collapse_outer r r0 p Lo Hr) as Hq.
+  destruct (along Lo p [tm]) eqn:Ea.
+  - pose proof (wf_outer_reach Lo _ [tm] p Hwf) as [Hok Hwfi]. rewrite reach_single in *. cbn [map] in *.
+    destruct (Hok _ (or_introl eq_refl)) as [Hto Hld].
+    rewrite (occ_nest_sound r r1 r0 n k _ Li Hto Hld Hwfi p).
+    destruct (occ_consistent (leader_bounds n k (reach_term Lo p tm)) r1 r0 p); [|reflexivity].
+    pose proof (body_den_reach Lo p (collapse r r0 p) [tm] Hq) as E. rewrite reach_single in E.
+    cbn [body_den fold_right] in E. lia.
+  - pose proof (not_along_zero Lo _ p (collapse r r0 p) [tm] Hwf Hq Ea) as E. cbn [body_den fold_right] in E.
+    destruct (occ_consistent (leader_bounds n k (reach_term Lo p tm)) r1 r0 p); lia.
+Qed.
+
+Lemma term_den_lift r r1 r0 tm q u' : r1 <> r0 -> (forall t, In t tm -> ~ In r1 (rem t) /\ ~ In r0 (rem t)) ->
+  term_den tm (collapse r r0 (upd (upd q r0 (q r)) r1 u')) = term_den tm q.
+Proof.
+  intros Hne Hfresh. apply term_den_ext. intros t x Ht Hx. destruct (Hfresh t Ht) as [Hn1 Hn0].
+  unfold collapse. unfold upd at 1. destruct (String.eqb_spec x r) as [->|Hxr].
+  - unfold upd. destruct (String.eqb_spec r0 r1) as [E|_]; [congruence|]. rewrite String.eqb_refl. reflexivity.
+  - unfold upd. destruct (String.eqb_spec x r1) as [->|_]; [contradiction|].
+    destruct (String.eqb_spec x r0) as [->|_]; [contradiction|reflexivity].
+Qed.
+
+(* every original point with a non-zero value is represented exactly once, also at a dynamic position *)
+Theorem occ_dyn_represented_once : forall Lo r r1 r0 n k Li tm,
+  ~ In r Lo -> ~ In r1 Lo -> ~ In r0 Lo -> r1 <> r0 ->
+  (forall t, In t tm -> ~ In r1 (rem t) /\ ~ In r0 (rem t)) ->
+  wf_outer Lo (occ_state_ok r r1 r0 n k Li) [tm] ->
+  forall q, term_den tm q <> 0 ->
+  exists u, part_of (leader_bounds n k (reach_term Lo q tm)) (q r) = Some u /\
+    forall u', sum_at (upd (upd q r0 (q r)) r1 u') (run_then_split Lo (occ_split r r1 r0 n k) Li [tm]) =
+               if Z.eqb u' u then term_den tm q else 0.
+Proof.
+  intros Lo r r1 r0 n k Li tm Hr Hr1 Hr0 Hne Hfresh Hwf q Hnz.
+  pose proof (wf_outer_reach Lo _ [tm] q Hwf) as [Hok _]. rewrite reach_single in Hok.
+  destruct (Hok _ (or_introl eq_refl)) as [_ Hld].
+  assert (Hnz' : term_den (reach_term Lo q tm) q <> 0).
+  { pose proof (body_den_reach Lo q q [tm] (fun x _ => eq_refl)) as E. rewrite reach_single in E.
+    cbn [body_den fold_right] in E. lia. }
+  destruct (part_of (leader_bounds n k (reach_term Lo q tm)) (q r)) as [u|] eqn:Eu.
+  2:{ exfalso. apply (occ_point_has_partition r n k _ q Hld Hnz'). exact Eu. }
+  exists u. split; [reflexivity|]. intros u'.
+  rewrite (occ_dyn_sound Lo r r1 r0 n k Li tm Hr Hwf).
+  set (p' := upd (upd q r0 (q r)) r1 u').
+  assert (Hagree : forall x, In x Lo -> p' x = q x).
+  { intros x Hx. unfold p', upd. destruct (String.eqb_spec x r1) as [->|_]; [contradiction|].
+    destruct (String.eqb_spec x r0) as [->|_]; [contradiction|reflexivity]. }
+  rewrite (reach_term_ext Lo p' q tm Hagree).
+  assert (H0 : p' r0 = q r).
+  { unfold p', upd. destruct (String.eqb_spec r0 r1) as [E|_]; [congruence|]. rewrite String.eqb_refl. reflexivity. }
+  assert (H1 : p' r1 = u') by (unfold p', upd; rewrite String.eqb_refl; reflexivity).
+  unfold occ_consistent. rewrite H0, Eu, H1. rewrite (Z.eqb_sym u u').
+  destruct (u' =? u); [|reflexivity]. apply term_den_lift; assumption.
+Qed.
